@@ -9,7 +9,18 @@ functions and IsValid checks gives. Binding A: every state of the module is one 
 harness/internal/c28 builds the real signed object (real keys, real signatures), encodes it with
 the real JSON encoder, applies the mutation on the decoded tree, decodes with the real encoder
 and calls IsValid(networkID). Accepted (or a panic) where the statement demands rejection is a
-violation."""
+violation.
+
+Validation history: the module also models the validating process as something that may carry state
+from one validation to the next (a parameter: what it remembers, under which key, process-wide or
+inside the decoded instance) and shows that only a memo keyed on too little (or written before the
+check) makes a verdict depend on what was validated before; the histories of the reference
+validator (genuine -> mutated -> genuine, mutated -> genuine -> mutated, fresh decodes and the
+earlier instance; thorough: every history of 3 validations) are replayed for EVERY catalogue case in
+ONE harness process, each on an object the process has not seen before. The genuine object must pass
+at every position; the mutated one must get, at every position, the verdict it gets in isolation."""
+import concurrent.futures
+import copy
 import os
 from vlib import core
 
@@ -59,23 +70,136 @@ def check_schema(ctx):
         raise core.MachineryError("SignedObjects.tla schema out of date:\n" + "\n".join(gaps[:20]))
 
 
+def subctx(ctx, k):
+    """a view of ctx for one TLC run that goes on at the same time as another: own work directory and counters"""
+    c = copy.copy(ctx)
+    c.work = os.path.join(ctx.work, "p%s" % k)
+    os.makedirs(c.work)
+    c.states = c.transitions = 0
+    c.tlc_cmds = []
+    c._ntlc = 0
+    return c
+
+
+def pattern(hist, upto=None):
+    """G>M>G=  ('=': the instance decoded earlier from the same bytes is validated again, otherwise a fresh decode)"""
+    hist = hist if upto is None else hist[:upto + 1]
+    return ">".join(e["r"] + ("=" if e["copy"] == "same" else "") for e in hist)
+
+
+def mutname(c):
+    if c["mut"] == "field":
+        return (alias(c["scope"]) + "." + c["rel"]) if c["scope"] else ".".join(c["path"])
+    if c["mut"] == "kind":
+        return "kind(%s->%s)" % (c["scope"], c["to"])
+    return c["mut"]
+
+
+def judge_histories(ctx, c, row, seed, canon):
+    """every validation of every history of the case against the isolated verdicts; at most one report per case
+    (the shortest deviating history). Returns the number of validations."""
+    iso = row["outcome"]                     # the mutated object validated first in its life: accepted / rejected-* / panic
+    iso_rejected = iso.startswith("rejected")
+    n = 0
+    found = None
+    for hist, res in zip(c["hists"], row["hists"]):
+        if len(res) != len(hist):
+            raise core.MachineryError("history %s of %s could not be run: %s" % (pattern(hist), canon, res))
+        ctx.case(canon + [pattern(hist), seed], nontrivial=True)
+        for i, (e, o) in enumerate(zip(hist, res)):
+            n += 1
+            out = o["outcome"]
+            if out == "error":
+                raise core.MachineryError("history %s of %s could not be run: %s" % (pattern(hist), canon, o.get("err")))
+            if e["r"] == "G":
+                dev = None if out == "accepted" else "genuine-object-%s" % ("panics" if out == "panic" else "rejected")
+            elif out == "panic" and iso != "panic":
+                dev = "mutated-object-panics"
+            elif iso_rejected and not out.startswith("rejected"):
+                dev = "mutated-object-accepted"
+            elif not iso_rejected and out.startswith("rejected"):
+                # accepted alone (reported there), rejected here: history dependent, but nothing the statement forbids
+                d = ctx.extra.setdefault("accepted_alone_rejected_in_history", {})
+                k = "%s %s %s" % (c["kind"], mutname(c), pattern(hist, i))
+                d[k] = d.get(k, 0) + 1
+                dev = None
+            else:
+                dev = None
+            # the shortest deviating history; among those the one with the most fresh decodes
+            rank = (i, pattern(hist, i).count("="))
+            if dev and (found is None or rank < found[5]):
+                found = (hist, i, dev, o, res, rank)
+    if found:
+        hist, i, dev, o, res, _ = found
+        if c["cls"] == "weak" and dev == "mutated-object-accepted":
+            ctx.extra.setdefault("weak_reading_accepted_in_history", {})["%s:%s" % (c["kind"], ".".join(c["path"]))] = pattern(hist, i)
+            return n
+        key = "history(%s);%s;%s;%s" % (pattern(hist, i), c["kind"], mutname(c), dev)
+        what = ("one process validates %s about one %s (G: the genuine object under its own network id, M: %s; '=': the instance "
+                "decoded before, else a fresh decode of the same bytes): validation %d answers %s%s; alone M is %s, G accepted" % (
+                    pattern(hist, i), c["kind"],
+                    "the same bytes under another network id" if c["mut"] == "netid" else
+                    "%s %s%s" % (c["mut"], ".".join(c["path"]), (" -> " + c["to"]) if c["to"] else ""),
+                    i + 1, o["outcome"], (": " + o["err"].split("\n")[0][:160]) if o.get("err") else "", iso))
+        ctx.violation(key, what, {"case": {k: v for k, v in c.items() if k != "hists"}, "history": hist, "observed": res,
+                                  "isolated": row["outcome"], "object_seed": seed})
+    return n
+
+
 def run(ctx):
     quick = ctx.tier == "quick"
-    r, steps = ctx.tlc_dump_steps("SignedObjects", "SignedObjects_mc_quick.cfg" if quick else "SignedObjects_mc_thorough.cfg",
-                                  timeout=900)
+    main, cand = subctx(ctx, "main"), subctx(ctx, "cand")
+    with concurrent.futures.ThreadPoolExecutor(max_workers=2) as ex:
+        f1 = ex.submit(main.tlc_dump_steps, "SignedObjects",
+                       "SignedObjects_mc_quick.cfg" if quick else "SignedObjects_mc_thorough.cfg", timeout=900)
+        # expected counterexample: a validator that remembers accepted requests under a key without one component
+        f2 = ex.submit(cand.tlc, "SignedObjects", "SignedObjects_hist_cand.cfg", allow_violation=True, timeout=900, count=False)
+        (r, steps), rc = f1.result(), f2.result()
+    for c in (main, cand):
+        ctx.states += c.states
+        ctx.transitions += c.transitions
+        ctx.tlc_cmds += c.tlc_cmds
+    if rc.violated != "HistoryIndependent":
+        raise core.MachineryError("HistoryIndependent is not violated over the validator space (SignedObjects_hist_cand.cfg): "
+                                  "the history layer lost its sensitivity\n" + rc.out[-2000:])
+    ctx.extra["model_candidate_memo_keyed_on_too_little"] = "HistoryIndependent violated (as it must be)"
     ctx.exhaustive = True
+    hsteps = [s for s in steps if "hist" in s]
+    steps = [s for s in steps if "hist" not in s]
     if not steps:
         raise core.MachineryError("empty catalogue")
+    families = {}
+    for s in hsteps:
+        families.setdefault((s["comp"], s["rej"]), []).append(s["hist"])
+    for k in families:
+        families[k].sort(key=pattern)
+    for c in steps:
+        if c["mut"] == "twin":
+            continue
+        fam = families.get((c["comp"], c["impl"]))
+        if not fam:
+            raise core.MachineryError("no history emitted for the class %s of case %s" % ((c["comp"], c["impl"]), c))
+        c["hists"] = fam
+    ctx.extra["history_family"] = {"%s;%s" % (k[0], "rejected" if k[1] else "accepted"): [pattern(h) for h in v]
+                                   for k, v in sorted(families.items())}
     check_schema(ctx)
     cases = os.path.join(ctx.work, "cases.ndjson")
     core.write_ndjson(cases, steps)
+    # thorough: every history of the family on the first 8 passes, the alternating ones (the quick family) on the others
+    alt_steps = [dict(c, hists=[h for h in c["hists"] if all(a["r"] != b["r"] for a, b in zip(h, h[1:]))]) if "hists" in c else c
+                 for c in steps]
+    alt_cases = os.path.join(ctx.work, "cases_alt.ndjson")
+    core.write_ndjson(alt_cases, alt_steps)
+    full_steps = steps
     passes = [ctx.seed] if quick else [ctx.seed * 1000 + i for i in range(25)]
     accepted = {}        # (scope, rel/mut...) bookkeeping for key naming
     bad = []
     noops = 0
+    nhist = nvalid = 0
     for seed in passes:
         res = os.path.join(ctx.work, "res%d.ndjson" % seed)
-        ctx.vh(["C28", "replay", "--seed", seed, "--in", cases, "--out", res], timeout=900)
+        steps = full_steps if passes.index(seed) < 8 else alt_steps
+        ctx.vh(["C28", "replay", "--seed", seed, "--in", cases if steps is full_steps else alt_cases, "--out", res], timeout=900)
         rows = core.read_ndjson(res)
         if len(rows) != len(steps):
             raise core.MachineryError("harness answered %d of %d cases" % (len(rows), len(steps)))
@@ -90,6 +214,12 @@ def run(ctx):
                 noops += 1
                 continue
             rejected = out.startswith("rejected")
+            if "hists" in c:
+                if len(row.get("hists", [])) != len(c["hists"]):
+                    raise core.MachineryError("harness answered %d of %d histories of %s" % (len(row.get("hists", [])), len(c["hists"]), canon))
+                n = judge_histories(ctx, c, row, seed, canon)
+                nhist += len(c["hists"])
+                nvalid += n
             if c["cls"] == "weak":
                 if not rejected:
                     ctx.extra.setdefault("weak_reading_accepted", {})
@@ -106,6 +236,9 @@ def run(ctx):
                 if c["mut"] == "field":
                     accepted.setdefault(c["scope"], set()).add(c["rel"])
         ctx.traces += len(steps)
+    ctx.traces += nhist
+    ctx.extra["histories_replayed"] = nhist
+    ctx.extra["validations_in_histories"] = nvalid
     # a hashed object whose stored hash may be changed freely is never compared with a recomputed hash
     unchecked = {s for s, rels in accepted.items() if "hash" in rels}
     for (c, row, seed) in bad:
@@ -126,14 +259,20 @@ def run(ctx):
         what = "%s of %s%s%s: %s -> %s is %s by decode + IsValid%s" % (
             c["mut"], c["kind"], (" at " + ".".join(c["path"])) if c["path"] else "", (" to " + c["to"]) if c["to"] else "",
             row.get("from", "")[:24], row.get("toval", "")[:24], row["outcome"], (": " + row["err"].split("\n")[0][:160]) if row["err"] else "")
-        ctx.violation(key, what, {"case": c, "result": row, "object_seed": seed})
+        ctx.violation(key, what, {"case": {k: v for k, v in c.items() if k != "hists"},
+                                  "result": {k: v for k, v in row.items() if k != "hists"}, "object_seed": seed})
     ctx.extra["mutations_without_effect_skipped"] = noops
     ctx.rule = ("one case = (kind of signed object, mutation class, leaf or target kind) of the catalogue of SignedObjects.tla "
                 "applied to a freshly built real object (per pass other keys-independent values: heights, hashes, tokens, "
-                "texts); all cases non-trivial; distinct by (kind, mutation, path, target, object seed)")
+                "texts), alone and in every history of the emitted family (all in one harness process, every history on an "
+                "object of its own); all cases non-trivial; distinct by (kind, mutation, path, target, history, object seed)")
     ctx.assumptions = [
         "the item type of a block map is judged by the weaker reading (the code documents that only checksums are signed): "
         "acceptances are reported in weak_reading_accepted, not alarmed",
         "the unsigned envelope of a voteproof carried by a ballot (id, finished_at, majority, point, threshold) is not signed content",
         "object shapes are fixed (number of signs, expels, operations); values vary per pass",
+        "validation is read as a function of (object, network id): the genuine object rejected at a later position of a history "
+        "is reported like a mutated one accepted there (the verdict must not depend on what was validated before)",
+        "histories are bounded: 3 validations about one object (quick: genuine and mutated alternate); state that only shows after "
+        "more validations, after eviction from a bounded cache, or between different objects is not explored",
     ]
